@@ -36,6 +36,11 @@ func AclParser(be backend.Backend, logger s3log.AuditLogger, readonly bool) fibe
 	return func(ctx *fiber.Ctx) error {
 		isRoot, acct := ctx.Locals("isRoot").(bool), ctx.Locals("account").(auth.Account)
 		path := ctx.Path()
+		// a request target in absolute form without a path ("GET http://host")
+		// arrives with an empty path: it names the service, like "/"
+		if path == "" {
+			path = "/"
+		}
 		pathParts := strings.Split(path, "/")
 		bucket := pathParts[1]
 		if path == "/" && ctx.Method() == http.MethodGet {
